@@ -132,6 +132,60 @@ fn from_json(case: &Value) -> Value {
     }
 }
 
+// ---- C20: the same template resolved on a fresh and on a reused compiler instance -----------
+
+struct EmptyStore;
+
+impl tx3_resolver::UtxoStore for EmptyStore {
+    async fn narrow_refs(&self, _: tx3_resolver::UtxoPattern<'_>) -> Result<HashSet<tx3_tir::model::core::UtxoRef>, tx3_resolver::Error> {
+        Ok(HashSet::new())
+    }
+
+    async fn fetch_utxos(&self, _: HashSet<tx3_tir::model::core::UtxoRef>) -> Result<tx3_tir::model::core::UtxoSet, tx3_resolver::Error> {
+        Ok(Default::default())
+    }
+}
+
+/// the futures of this binary never suspend (the store answers at once): poll once
+fn block_on<F: std::future::Future>(f: F) -> F::Output {
+    struct Noop;
+    impl std::task::Wake for Noop {
+        fn wake(self: std::sync::Arc<Self>) {}
+    }
+    let waker = std::task::Waker::from(std::sync::Arc::new(Noop));
+    let mut cx = std::task::Context::from_waker(&waker);
+    let mut f = std::pin::pin!(f);
+    loop {
+        if let std::task::Poll::Ready(x) = f.as_mut().poll(&mut cx) {
+            return x;
+        }
+    }
+}
+
+fn outcome(comp: &mut tx3_cardano::Compiler, tx: &tir::Tx, rounds: usize) -> Value {
+    let any = tx3_tir::encoding::AnyTir::V1Beta0(tx.clone());
+    let args = BTreeMap::new();
+    let r = std::panic::catch_unwind(std::panic::AssertUnwindSafe(|| block_on(tx3_resolver::resolve_tx(any, &args, comp, &EmptyStore, rounds))));
+    match r {
+        Ok(Ok(c)) => json!({ "ok": { "payload": hex::encode(&c.payload), "hash": hex::encode(&c.hash), "fee": c.fee } }),
+        Ok(Err(e)) => {
+            let d = format!("{e:?}");
+            json!({ "error": d.split(|c: char| !c.is_alphanumeric()).filter(|w| !w.is_empty()).take(3).collect::<Vec<_>>().join("/") })
+        }
+        Err(_) => json!({ "panic": "resolve_tx" }),
+    }
+}
+
+fn history(case: &Value) -> Value {
+    let tx: tir::Tx = serde_json::from_value(case["tir"].clone()).expect("tir");
+    let earlier: Vec<tir::Tx> = serde_json::from_value(case["earlier"].clone()).expect("earlier");
+    let rounds = case["rounds"].as_u64().unwrap_or(3) as usize;
+    let mut fresh = compiler(1000, 5_000_000);
+    let mut used = compiler(1000, 5_000_000);
+    let before: Vec<Value> = earlier.iter().map(|t| outcome(&mut used, t, rounds)).collect();
+    json!({ "earlier": before, "fresh": outcome(&mut fresh, &tx, rounds), "reused": outcome(&mut used, &tx, rounds) })
+}
+
 fn main() {
     if std::env::var("REPLAY_VERBOSE").is_err() {
         std::panic::set_hook(Box::new(|_| {}));
@@ -146,6 +200,7 @@ fn main() {
             "pipeline" => pipeline(c),
             "assets" => assets(c),
             "from_json" => from_json(c),
+            "history" => history(c),
             _ => json!({ "error": "unknown cmd" }),
         })
         .collect();
